@@ -661,6 +661,24 @@ func (in *instr) stmt(s ast.Stmt, withY bool) []ast.Stmt {
 
 	case *ast.DeferStmt:
 		in.exprs(st.Call)
+		if sel, ok := st.Call.Fun.(*ast.SelectorExpr); ok && len(st.Call.Args) == 0 {
+			w := ""
+			switch in.syncMethod(sel) {
+			case "Mutex.Unlock", "RWMutex.Unlock":
+				w = "true"
+			case "RWMutex.RUnlock":
+				w = "false"
+			}
+			if w != "" {
+				// defer mu.Unlock()  ->  p := &mu; defer func() { simrt.UL(site, p, w); p.Unlock() }()
+				p := in.tmp("mu")
+				pre = append(pre, &ast.AssignStmt{Lhs: []ast.Expr{p}, Tok: token.DEFINE, Rhs: []ast.Expr{in.addrOf(sel)}})
+				main = &ast.DeferStmt{Call: &ast.CallExpr{Fun: &ast.FuncLit{Type: &ast.FuncType{Params: &ast.FieldList{}}, Body: &ast.BlockStmt{List: []ast.Stmt{
+					&ast.ExprStmt{X: simCall("UL", in.site(pos, "deferred-unlock"), p, ast.NewIdent(w))},
+					&ast.ExprStmt{X: &ast.CallExpr{Fun: &ast.SelectorExpr{X: p, Sel: ast.NewIdent(sel.Sel.Name)}}},
+				}}}}}
+			}
+		}
 
 	case *ast.ReturnStmt:
 		if containsRecv(st) {
@@ -765,6 +783,10 @@ func (in *instr) stmt(s ast.Stmt, withY bool) []ast.Stmt {
 				case "RWMutex.RLock":
 					pre = append(pre, &ast.ExprStmt{X: simCall("L", in.site(pos, "rlock"), in.addrOf(sel), ast.NewIdent("false"))})
 					hasOwnYield = true
+				case "Mutex.Unlock", "RWMutex.Unlock":
+					pre = append(pre, &ast.ExprStmt{X: simCall("UL", in.site(pos, "unlock"), in.addrOf(sel), ast.NewIdent("true"))})
+				case "RWMutex.RUnlock":
+					pre = append(pre, &ast.ExprStmt{X: simCall("UL", in.site(pos, "runlock"), in.addrOf(sel), ast.NewIdent("false"))})
 				case "WaitGroup.Wait":
 					tk := in.tmp("tk")
 					pre = append(pre, &ast.AssignStmt{Lhs: []ast.Expr{tk}, Tok: token.DEFINE, Rhs: []ast.Expr{simCall("B", in.site(pos, "wgwait"))}})
